@@ -146,7 +146,11 @@ def _seq_mode(pl, pr, arrays, aoh):
         return "A=" + arrays, arrays == "value"
     if cls <= {"aoh"}:
         return "O=" + aoh, aoh in spec.AOH_SYNC
-    return "A=%s|O=%s" % (arrays, aoh), (arrays == "value" or aoh in spec.AOH_SYNC)
+    # hashes and non-hashes meet: the documentation is silent; label by what the first
+    # right-hand member is (from-code, affects the label of the failing place only)
+    if pr and isinstance(pr[0], dict):
+        return "O=%s(mixed)" % aoh, aoh in spec.AOH_SYNC
+    return "A=%s(mixed)" % arrays, arrays == "value"
 
 
 def _pair_desc(fl, l, fr, r, arrays, aoh):
@@ -161,76 +165,172 @@ def _pair_desc(fl, l, fr, r, arrays, aoh):
     return s, sync
 
 
-def first_difference(l, r, arrays, aoh, path=()):
-    """Path of the first point where two documents that differ as data part ways
-    (descending through mappings and positionally compared sequences only)."""
+def _whole_unit(cl, cr, aoh):
+    """aoh=position compares records as whole units: do not walk into them."""
+    return aoh == "position" and bool(cl) and bool(cr) and isinstance(cr[0], dict)
+
+
+def _matching(l_list, r_list, aoh, aoh_key, by_key):
+    """Greedy pairing of a synchronised sequence pair, left to right, each right member
+    used once: by identity value (key/deep on hashes) or by equality (true == 1 counts:
+    that conflation has its own name).  A labelling aid: it decides where a failing
+    path continues below a synchronised sequence, never a verdict.
+    Returns ({left index: right index}, {right index: left index})."""
+    field = None
+    if by_key:
+        field = aoh_key
+        if field is None and r_list and isinstance(r_list[0], dict) and r_list[0]:
+            field = next(iter(r_list[0]))
+    free = list(range(len(r_list)))
+    l2r, r2l = {}, {}
+    for i, e in enumerate(l_list):
+        for j in free:
+            x = r_list[j]
+            if by_key:
+                ok = (field is not None and isinstance(e, dict) and isinstance(x, dict)
+                      and field in e and field in x and spec.loose_equal(e[field], x[field]))
+            else:
+                ok = spec.loose_equal(e, x)
+            if ok:
+                l2r[i] = j
+                r2l[j] = i
+                free.remove(j)
+                break
+    return l2r, r2l
+
+
+def _partner(idx, own_is_left, l_list, r_list, arrays, aoh, aoh_key):
+    mode, _ = _seq_mode(l_list, r_list, arrays, aoh)
+    by_key = mode.startswith("O=") and aoh in ("key", "deep")
+    l2r, r2l = _matching(l_list, r_list, aoh, aoh_key, by_key)
+    if own_is_left:
+        j = l2r.get(idx)
+        return None if j is None else r_list[j]
+    i = r2l.get(idx)
+    return None if i is None else l_list[i]
+
+
+def first_difference(l, r, arrays, aoh, aoh_key=None, skip_loose=False, path=(), side="left"):
+    """(path, side) of the first point where two documents that differ as data part
+    ways; the path is in `side`'s coordinates (they differ from the other side's only
+    below a synchronised sequence).  With skip_loose, differences that vanish when
+    true == 1 are passed over; None when nothing else differs."""
+    def deq(a, b):
+        return spec.data_equal(a, b, arrays, aoh, aoh_key, scalars="loose" if skip_loose else "strict")
+
     kl, kr = spec.kind(l), spec.kind(r)
-    if kl != kr:
-        return path
+    if deq(l, r):
+        return None
+    if kl != kr or kl not in ("map", "seq"):
+        return (path, side)
     if kl == "map":
         for k in l:
             if k not in r:
-                return path + (("key", spec._key_text(k)),)
+                return (path + (("key", spec._key_text(k)),), "left")
         for k in r:
             if k not in l:
-                return path + (("key", spec._key_text(k)),)
+                return (path + (("key", spec._key_text(k)),), "right")
         for k in l:
-            if not spec.data_equal(l[k], r[k], arrays, aoh):
-                return first_difference(l[k], r[k], arrays, aoh, path + (("key", spec._key_text(k)),))
-        return path
-    if kl == "seq":
-        if not l or not r:
-            return path
-        _, sync = _seq_mode(l, r, arrays, aoh)
-        if sync:
-            return path
+            d = first_difference(l[k], r[k], arrays, aoh, aoh_key, skip_loose, path + (("key", spec._key_text(k)),), side)
+            if d is not None:
+                return d
+        return (path, side)
+    if not l or not r:
+        return (path, side)
+    _, sync = _seq_mode(l, r, arrays, aoh)
+    if not sync:
+        if _whole_unit(l, r, aoh):
+            for i in range(max(len(l), len(r))):
+                if i >= len(l) or i >= len(r) or not deq(l[i], r[i]):
+                    return (path + (("idx", i),), "left" if i < len(l) else "right")
+            return (path, side)
         for i in range(max(len(l), len(r))):
-            if i >= len(l) or i >= len(r):
-                return path + (("idx", i),)
-            if not spec.data_equal(l[i], r[i], arrays, aoh):
-                return first_difference(l[i], r[i], arrays, aoh, path + (("idx", i),))
-        return path
-    return path
+            if i >= len(l):
+                return (path + (("idx", i),), "right")
+            if i >= len(r):
+                return (path + (("idx", i),), "left")
+            d = first_difference(l[i], r[i], arrays, aoh, aoh_key, skip_loose, path + (("idx", i),), side)
+            if d is not None:
+                return d
+        return (path, side)
+    # synchronised: the first element without an equal partner
+    for own, other, own_side in ((l, r, "left"), (r, l, "right")):
+        rest = list(other)
+        for i, e in enumerate(own):
+            for j, x in enumerate(rest):
+                if deq(e, x):
+                    del rest[j]
+                    break
+            else:
+                if own_side != side and path:
+                    # coordinates above this point were `side`'s; they are the same keys, keep them
+                    pass
+                p = _partner(i, own_side == "left", l, r, arrays, aoh, aoh_key)
+                if p is not None and not spec.strict_equal(e, p):
+                    a, b = (e, p) if own_side == "left" else (p, e)
+                    d = first_difference(a, b, arrays, aoh, aoh_key, skip_loose, path + (("idx", i),), own_side)
+                    if d is not None:
+                        return d
+                return (path + (("idx", i),), own_side)
+    return (path, side)
 
 
-def locus_sig(P, lp, rp, arrays, aoh, side=None):
-    """Shape class of the place a clause failed at.  Walk both documents along
-    the failing path for as long as they have the same kind of container and the
-    next segment on both sides and the pair is compared position by position;
-    name the pair where the walk stops and the pair above it:
-        <parent pair> > <pair>            e.g.  seq:arr~seq:arr[A=position,null-element]>null~absent
-    A sequence pair carries the mode governing it.  Under a synchronised pair
-    positions do not correspond, so the failing side's element alone is named
-    (`...>seq:arr~seq:arr[A=value]>scalar@left`); a record compared as a whole
-    unit (aoh=position) is not walked into."""
+def _eq_class(a, b):
+    if spec.strict_equal(a, b):
+        return "equal"
+    if spec.loose_equal(a, b):
+        return "loose"
+    return False
+
+
+def locus(P, lp, rp, arrays, aoh, aoh_key=None, side=None):
+    """Shape class of the place a clause failed at.  Walk both documents along the
+    failing path (given in `side`'s coordinates) for as long as they hold the same
+    kind of container and the next segment on both sides; name every pair passed:
+        seq:arr~seq:arr[A=position,null-element] > null~absent
+    A sequence pair carries the mode governing it.  Below a synchronised pair the
+    walk continues into the element's partner (an equal element, or the record of
+    the same identity value); an element without partner is named alone
+    (`scalar@left`).  A record compared as a whole unit (aoh=position) is not walked
+    into.  Returns the chain of labels and whether the last pair is equal as data."""
     P = tuple(tuple(x) for x in (P or ()))
     cl, cr = lp, rp
-    parent = "root"
+    chain = []
     i = 0
     while True:
         desc, sync = _pair_desc(True, cl, True, cr, arrays, aoh)
-        if i == len(P):
-            return parent + ">" + desc
+        chain.append(desc)
         kl, kr = spec.kind(cl), spec.kind(cr)
-        if kl != kr or kl not in ("map", "seq", "set"):
-            return parent + ">" + desc
+        if i == len(P) or kl != kr or kl not in ("map", "seq", "set"):
+            return chain, _eq_class(cl, cr)
         seg = P[i:i + 1]
         if kl == "seq" and sync:
-            own = cr if side == "right" else cl
-            f, e = spec.resolve(own, seg)
+            own_left = side != "right"
+            f, e = spec.resolve(cl if own_left else cr, seg)
             if not f and side is None:
+                own_left = False
                 f, e = spec.resolve(cr, seg)
-            return "%s>%s>%s%s" % (parent, desc, _desc(f, e), "@" + side if side else "")
-        whole = (kl == "seq" and aoh == "position" and cl and cr
-                 and spec.list_class(cl) == "aoh" and spec.list_class(cr) == "aoh")
+            if not f:
+                chain.append("absent")
+                return chain, False
+            p = _partner(seg[0][1], own_left, cl, cr, arrays, aoh, aoh_key)
+            if p is None:
+                chain.append("%s@%s" % (_desc(True, e), "left" if own_left else "right"))
+                return chain, False
+            cl, cr = (e, p) if own_left else (p, e)
+            i += 1
+            continue
+        whole = kl == "seq" and _whole_unit(cl, cr, aoh)
         fl, nl = spec.resolve(cl, seg)
         fr, nr = spec.resolve(cr, seg)
         if not (fl and fr):
-            return "%s>%s~%s" % (desc, _desc(fl, nl), _desc(fr, nr))
-        parent, cl, cr = desc, nl, nr
+            chain.append("%s~%s" % (_desc(fl, nl), _desc(fr, nr)))
+            return chain, False
+        cl, cr = nl, nr
         i += 1
         if whole:
-            return parent + ">" + _pair_desc(True, cl, True, cr, arrays, aoh)[0]
+            chain.append(_pair_desc(True, cl, True, cr, arrays, aoh)[0])
+            return chain, _eq_class(cl, cr)
 
 
 CLAUSE_GROUP = {
@@ -258,37 +358,38 @@ def _strip(label):
     return a, b, flags
 
 
-def _named_cause(group, sig, fail, ctx):
+def _named_cause(group, chain, fail, ctx):
     """Named root causes, by a predicate over the clause group and the shape class
     of the failing place.  First match wins; anything unmatched keeps its computed
     shape signature as the key, so a new failure mode shows up as a new key."""
-    if fail.get("loose") or (ctx["loose_equal_docs"] and fail["clause"] == "differ-no-entry"):
+    if fail.get("loose") or (ctx["loose_equal_docs"] and group == "iff") or ctx["child_equal"] == "loose":
         return "bool-int-conflated"
-    parts = sig.split(">")
-    child = parts[-1]
-    above = parts[:-1]
+    if fail["clause"] in ctx["crosstalk_clauses"]:
+        return "aoh-positional-mode-synchronised-when-arrays-value"
+    child = chain[-1]
     ca, cb, _ = _strip(child)
-    for lab in parts:
+    for lab in chain:
         a, b, _ = _strip(lab)
         if a and a.startswith("seq:") and b == "seq0":
             return "nonempty-seq-vs-empty-seq-no-entry"
-    if any("null-element" in lab for lab in parts) and ("null" in (ca, cb) or "absent" in (ca, cb)):
-        return "null-element-in-sequence"
+    nullish = "null" in (ca, cb) or "absent" in (ca, cb)
+    for lab in chain:
+        if "null-element" in lab and (nullish or "A=value" in lab or any("O=" + m in lab for m in spec.AOH_SYNC)):
+            return "null-element-in-sequence"
     if (ca in _EMPTY and cb == ca) or (cb is None and ca in _EMPTY):
         return "empty-container-pair-no-entry"
     if cb is not None:
         if (ca == "null" and cb in _CONT) or (cb == "null" and ca in _CONT):
             return "null-vs-container-no-entry-for-null"
         if ca != cb and "absent" not in (ca, cb) and (ca in _EMPTY or cb in _EMPTY):
+            if ca.rstrip("0") == cb.rstrip("0"):
+                return "nonempty-map-or-set-vs-empty-no-entry-for-the-empty-one"
             return "empty-container-in-type-clash-no-entry"
     if "(key-order)" in child:
         return "whole-record-compare-sensitive-to-key-order"
-    if group == "account" and ctx["aoh"] == "position":
-        if child.startswith("map~map") and above and above[-1].startswith("seq:aoh~seq:aoh[O=position"):
-            return "aoh-position-equal-records-no-entry"
-    if group == "iff" and ctx["arrays"] == "value" and ctx["aoh"] in ("position", "dpos") \
-            and any(lab.startswith("seq:aoh~seq:aoh[O=") for lab in parts):
-        return "aoh-positional-mode-synchronised-when-arrays-value"
+    if group == "account" and ctx["aoh"] == "position" and ctx["child_equal"] == "equal" and len(chain) > 1 \
+            and "O=position" in chain[-2] and cb not in (None, "absent"):
+        return "aoh-position-equal-elements-no-entry"
     return None
 
 
@@ -436,32 +537,51 @@ def check_case(col, inp, L, R, lp, rp, inidir, status_check="fast"):
     # ---- group the failed clauses by cause
     by_key = {}
     if fails:
-        ctx = {"loose_equal_docs": spec.loose_equal(lp, rp) and not spec.strict_equal(lp, rp),
-               "arrays": arrays, "aoh": aoh}
+        loose_docs = spec.data_equal(lp, rp, arrays, aoh, aoh_key, scalars="loose") \
+            and not spec.data_equal(lp, rp, arrays, aoh, aoh_key)
         idkey_issues = None
+        crosstalk = frozenset()
+        if arrays == "value" and aoh in ("position", "dpos"):
+            # clauses that fail under the requested positional AoH mode but hold when the report is
+            # read as a value-synchronised one: the array mode has taken the AoH mode over
+            alt = set(f["clause"] for f in spec.diff_truth(ents, lp, rp, {"arrays": "value", "aoh": "value"}))
+            crosstalk = frozenset(f["clause"] for f in fails) - alt
         for f in fails:
             group = CLAUSE_GROUP[f["clause"]]
-            P = f["path"]
+            if group == "path":
+                by_key.setdefault("C06/unparseable-entry-path", []).append(f)
+                continue
+            P, side = f["path"], f.get("side")
+            # a clause that fails under the value-synchronised reading as well is located under that
+            # reading (it is what was compared); labels only, the verdict stands as computed above
+            laoh = "value" if (arrays == "value" and aoh in ("position", "dpos") and f["clause"] not in crosstalk) else aoh
             if f["clause"] == "differ-no-entry":
-                P = first_difference(lp, rp, arrays, aoh)
-            sig = locus_sig(P, lp, rp, arrays, aoh, side=f.get("side")) if group != "path" else "unparseable-path"
-            name = _named_cause(group, sig, f, ctx)
+                d = first_difference(lp, rp, arrays, laoh, aoh_key, skip_loose=True) \
+                    or first_difference(lp, rp, arrays, laoh, aoh_key)
+                if d is None:
+                    raise RuntimeError("harness: documents differ but no difference found: %r" % (inp,))
+                P, side = d
+            chain, child_equal = locus(P, lp, rp, arrays, laoh, aoh_key, side)
+            ctx = {"loose_equal_docs": loose_docs, "arrays": arrays, "aoh": laoh, "child_equal": child_equal,
+                   "crosstalk_clauses": crosstalk}
+            name = _named_cause(group, chain, f, ctx)
             if name is None and aoh in ("key", "deep") and group in ("iff",):
                 if idkey_issues is None:
                     idkey_issues = spec.identity_key_issues(lp, rp, aoh_key)
                 if idkey_issues:
                     what = "+".join(sorted(idkey_issues))
                     if f["clause"] == "equal-but-entry" and f.get("identical"):
-                        name = "key-sync-reflexivity-identity-field-%s" % what
+                        name = "key-sync-reflexivity-record-without-identity-field" if "missing" in idkey_issues \
+                            else "key-sync-reflexivity-identity-value-duplicated"
                     else:
                         col.out_of_scope("key-sync-verdict-with-identity-field-%s" % what)
                         continue
             if name is None and group == "iff" and f["clause"] == "equal-but-entry":
                 # does the verdict hinge on order *inside* an element that is compared as a whole unit?
-                if not spec.data_equal(lp, rp, arrays, aoh, aoh_key, whole_unit="plain") or \
-                        _nested_reorder(lp, rp, arrays, aoh):
+                if not spec.data_equal(lp, rp, arrays, laoh, aoh_key, whole_unit="plain") or \
+                        _nested_reorder(lp, rp, arrays, laoh):
                     name = "reordered-sequence-nested-in-synchronised-element"
-            key = "C06/%s" % name if name else "C06/%s/%s" % (group, sig)
+            key = "C06/%s" % name if name else "C06/%s/%s" % (group, ">".join(chain[-2:]))
             by_key.setdefault(key, []).append(f)
 
     for key, fs in by_key.items():
@@ -546,6 +666,9 @@ INI_VARIANTS = [(a, o, "ini", None) for (a, o) in MODES] + [(a, o, "args+ini", N
 
 # --------------------------------------------------------------------------- generators
 def aoh_records(values, fields=("a", "b")):
+    if values == "small":
+        return [{}, {"a": 1}, {"a": 2}, {"a": None}, {"b": 1}, {"a": 1, "b": 1}, {"a": 1, "b": 2}, {"b": 1, "a": 1},
+                {"a": 2, "b": None}]
     recs = [{}]
     for f in fields:
         for v in values:
@@ -836,17 +959,17 @@ def run(tier="quick", seed=0, jobs=None):
     try:
         if tier == "quick":
             b = dict(A_nodes=3, A_depth=2, A_keys=["a", "b"], A_scalars="None,True,1,'a'",
-                     C_values="1,None", C_maxlen=2, C_fields=["a", "b"], C_cap=None,
+                     C_values="small", C_maxlen=2, C_fields=["a", "b"],
                      B_nodes=4, B_depth=3, B_keys=["a", 1], B_scalars="None,1", B_stride=7,
                      D_random=1200, K_maxlen=1)
-            a_scal, c_vals, b_scal = (None, True, 1, "a"), (1, None), (None, 1)
+            a_scal, c_vals, b_scal = (None, True, 1, "a"), "small", (None, 1)
             ini_stride = 23
         elif tier == "thorough":
-            b = dict(A_nodes=4, A_depth=3, A_keys=["a", "b"], A_scalars="None,True,1,'a'",
-                     C_values="1,2,None", C_maxlen=2, C_fields=["a", "b"], C_cap=None,
+            b = dict(A_nodes=4, A_depth=3, A_keys=["a", "b"], A_scalars="None,True,1",
+                     C_values="1,2,None", C_maxlen=2, C_fields=["a", "b"],
                      B_nodes=5, B_depth=3, B_keys=["a", 1], B_scalars="None,1", B_stride=1,
                      D_random=30000, K_maxlen=2)
-            a_scal, c_vals, b_scal = (None, True, 1, "a"), (1, 2, None), (None, 1)
+            a_scal, c_vals, b_scal = (None, True, 1), (1, 2, None), (None, 1)
             ini_stride = 101
         else:
             raise ValueError("tier must be quick or thorough")
